@@ -256,6 +256,13 @@ func (vc *VC) trIdent(name string, env *Env) TV {
 	if name == "nil" {
 		return TV{T: types.Typ[types.UntypedNil], S: "lnil"}
 	}
+	// iterated0, iterated1, ...: number of keys produced so far by the n-th map range of the function
+	if strings.HasPrefix(name, "iterated") && env.specHeap == nil {
+		key := "#itern" + name[len("iterated"):]
+		if _, ok := vc.heapSort[key]; ok {
+			return TV{T: types.Typ[types.Int], S: vc.envHeapRead(env, key, types.Typ[types.Int], "lnil")}
+		}
+	}
 	// local variable through debug info
 	if env.specHeap == nil && vc.fn != nil {
 		if tv, ok := vc.localByName(name, env); ok {
@@ -815,6 +822,26 @@ func (vc *VC) trCall(x *ECall, env *Env) TV {
 	case "wrapi64":
 		a := vc.coerceInt(vc.tr(x.Args[0], env), types.Typ[types.Int64])
 		return TV{T: types.Typ[types.Int64], S: vc.ar.wrap(intInfo{64, true}, a.S)}
+	case "unbox":
+		// unbox(x, "T"): the value of dynamic type T stored in interface x
+		a := vc.tr(x.Args[0], env)
+		tn := x.Args[1].String()
+		if es, ok := x.Args[1].(*EStr); ok {
+			tn = es.Val
+		}
+		t := vc.parseType(tn, env.pkg)
+		switch t.Underlying().(type) {
+		case *types.Pointer, *types.Map, *types.Chan, *types.Signature:
+			return TV{T: t, S: sx("iptr", a.S)}
+		}
+		return TV{T: t, S: vc.envHeapRead(env, "#box"+cellKey(t), t, sx("iptr", a.S))}
+	case "ifaceloc":
+		// the identity (boxed pointer) of an interface value
+		a := vc.tr(x.Args[0], env)
+		if _, ok := a.T.Underlying().(*types.Interface); !ok {
+			return vc.errTV("ifaceloc of %s", a.T)
+		}
+		return TV{T: types.Typ[types.UnsafePointer], S: sx("iptr", a.S)}
 	case "deref":
 		a := vc.tr(x.Args[0], env)
 		pt, ok := a.T.Underlying().(*types.Pointer)
